@@ -174,10 +174,9 @@ Proof. exact flat_serial_enc_dec. Qed.
 (* ---- flat indices, nest ordering, any dimension and depth: decode o encode = id on the index
    box, codes stay below the number of voxels, and the code is hierarchical: appending one
    refinement level s gives code(idx) = code(idx // s) * prod(s) + C-code(idx % s), i.e. the flat
-   children of f are the block f*prod(s) .. f*prod(s)+prod(s)-1 and the flat parent is f // prod(s).
-   (encode o decode = id on [0, size) is NOT proved for the nest ordering -- it follows from the
-   above by counting; it is checked exhaustively by the correspondence and the direct oracle.) *)
-Theorem C31_flat_nest_roundtrip_partial :
+   children of f are the block f*prod(s) .. f*prod(s)+prod(s)-1 and the flat parent is f // prod(s);
+   encode o decode = id on [0, number of voxels) and decoded indices lie in the index box. *)
+Theorem C31_flat_nest_roundtrip :
   forall fl ls idx,
     f_serial fl = false -> wf_rows (flat_ndim fl) (weights_nest fl ls) ->
     in_box idx (colprods (flat_ndim fl) (weights_nest fl ls)) ->
@@ -189,6 +188,12 @@ Proof.
   rewrite (in_box_length _ _ B). exact (proj1 (colprods_wf _ _ W)).
 Qed.
 
+Theorem C31_flat_nest_roundtrip_inverse :
+  forall fl ls f,
+    f_serial fl = false -> wf_rows (flat_ndim fl) (weights_nest fl ls) -> 0 <= f < zprod_all (weights_nest fl ls) ->
+    idx2flat fl ls (flat2idx fl ls f) = f /\ in_box (flat2idx fl ls f) (colprods (flat_ndim fl) (weights_nest fl ls)).
+Proof. exact flat_nest_enc_dec. Qed.
+
 Theorem C31_flat_nest_hierarchical :
   forall d wgts s idx,
     wf_rows d wgts -> length s = d -> pos_list s -> length idx = d ->
@@ -198,7 +203,7 @@ Proof. intros d wgts s idx W L P Li. exact (nest_step_gen d wgts s idx W L P Li 
 
 (* ---- non-vacuity: a concrete product grid (regular 2-D x open 1-D, depth 2) satisfies the
    hypotheses of C31_parent_child at both levels, and the nest weights of a regular grid satisfy
-   those of C31_flat_nest_roundtrip_partial with the level shape as index box. *)
+   those of C31_flat_nest_roundtrip with the level shape as index box. *)
 Example C31_hyps_satisfiable_open :
   wf_open [5] [[2]; [3]] [[1]; [2]] /\
   map a_shape (grid_axes [Reg [3; 2] [[2; 2]; [2; 3]]; Opn [5] [[2]; [3]] [[1]; [2]]] 2) = [12; 12; 6].
